@@ -94,6 +94,9 @@ type Result struct {
 	Steps    int
 	Values   []Value // values of top-level expression statements
 	InputUse int     // stdin lines consumed
+	// AltErrorLines: lines of statements at which a runtime error is an acceptable alternative
+	// outcome (the model itself carried on)
+	AltErrorLines []int
 }
 
 // Stdout is the model's expected stdout (model rendering of containers).
@@ -418,7 +421,11 @@ func (m *Machine) exec(s *N, sc *Scope) ctl {
 		return ctlReturn
 	case "fun":
 		if _, ok := sc.Vars[s.S]; ok {
-			m.unspec("redeclaration of a function name")
+			// a function declaration of a name the scope already binds: either it is refused (a
+			// runtime error at this statement) or from here on the name denotes the new function;
+			// the model follows the second reading and records the line so that the first one is
+			// accepted too -- what is not acceptable is a declaration that silently does nothing
+			m.res.AltErrorLines = append(m.res.AltErrorLines, s.Line)
 		}
 		f := &FnV{Decl: s, Env: sc}
 		m.declare(sc, s.S, f)
